@@ -464,7 +464,7 @@ func (g *cfgGen) list(sh *gen.TD, single bool, tv *gen.TV) *gen.Tree {
 	l := gen.List()
 	if sh.Kind == "array" {
 		for i := 0; i < sh.N; i++ {
-			l.Vals = append(l.Vals, g.value(sh.Elem, elemTV(tv, i)))
+			l.Vals = append(l.Vals, g.elem(sh.Elem, elemTV(tv, i)))
 		}
 		return g.deliver(l)
 	}
@@ -473,9 +473,19 @@ func (g *cfgGen) list(sh *gen.TD, single bool, tv *gen.TV) *gen.Tree {
 	}
 	n := rapid.IntRange(0, 3).Draw(t, "len")
 	for i := 0; i < n; i++ {
-		l.Vals = append(l.Vals, g.value(sh.Elem, elemTV(tv, i)))
+		l.Vals = append(l.Vals, g.elem(sh.Elem, elemTV(tv, i)))
 	}
 	return g.deliver(l)
+}
+
+// elem draws the setting of an element of a list or array or of an entry of a
+// map: one in eight is an explicit null, which stands for the zero value of
+// the element type (or what InitDefaults makes of it).
+func (g *cfgGen) elem(td *gen.TD, tv *gen.TV) *gen.Tree {
+	if rapid.IntRange(0, 7).Draw(g.t, "nullelem") == 7 {
+		return gen.Nil()
+	}
+	return g.value(td, tv)
 }
 
 // entries adds settings for up to two keys of a map type to o: other keys than
@@ -491,7 +501,7 @@ func (g *cfgGen) entries(sh *gen.TD, o *gen.Tree, tv *gen.TV) {
 		}
 		k := rapid.SampledFrom(pool).Draw(t, "key")
 		if o.Get(k) == nil {
-			o.Put(k, g.value(sh.Elem, entryTV(tv, k)))
+			o.Put(k, g.elem(sh.Elem, entryTV(tv, k)))
 		}
 	}
 }
